@@ -1,7 +1,8 @@
 (** Pinned statements of the C10 property theorems: compiled on every check, so a theorem
     cannot be weakened silently. *)
 From V Require Import Base.Util Gql.Ast Writer.Wop Ts.TsType Ts.TsDen
-  C10.Model C10.Spec C10.DenLemmas C10.Decide C10.Proofs C10.Proofs3 C10.Proofs2 C10.JsdocProofs C10.NameProofs C10.ResolverProofs C10.Properties.
+  C10.Model C10.Spec C10.DenLemmas C10.Decide C10.Proofs C10.Proofs3 C10.Proofs2 C10.JsdocProofs C10.NameProofs C10.ResolverProofs
+  C10.WrapGen C10.ResolverArgs C10.ResolverDen C10.Properties.
 
 Check (C10_alias_exact :
   forall o doc nss t T body f v b,
@@ -53,8 +54,7 @@ Check (C10_local_names_no_capture :
 Print Assumptions C10_local_names_no_capture.
 
 Check (C10_local_names_not_keyword :
-  forall bag n,
-  mem n EMITTED_KEYWORDS = false -> mem (local_name bag n) EMITTED_KEYWORDS = false).
+  forall bag n, mem (local_name bag n) EMITTED_KEYWORDS = false).
 Print Assumptions C10_local_names_not_keyword.
 
 Check (C10_local_names_capture_refuted :
@@ -63,11 +63,12 @@ Check (C10_local_names_capture_refuted :
   mem (local_name bag (s "Date")) bag = true).
 Print Assumptions C10_local_names_capture_refuted.
 
-Check (C10_keyword_name_refuted :
+Check (C10_keyword_name_renamed :
   wf_schema keyword_opts keyword_doc = true /\
   exists ms m, namespace_members keyword_opts keyword_doc OpOut = Ok ms /\ In (Some m) ms /\
-               mem (m_local m) EMITTED_KEYWORDS = true).
-Print Assumptions C10_keyword_name_refuted.
+               iname (m_name m) = s "null" /\ m_local m = s "__tmp_null" /\
+               mem (m_local m) EMITTED_KEYWORDS = false).
+Print Assumptions C10_keyword_name_renamed.
 
 Check (C10_resolvers_entry :
   forall o plugins doc d td,
@@ -111,3 +112,29 @@ Print Assumptions C10_resolver_scope_guarded.
 Check (C10_resolver_scope_refuted :
   exists d, resolver_structure default_ropts 0 context_doc = Ok d /\ resolver_scope_ok default_ropts d = false).
 Print Assumptions C10_resolver_scope_refuted.
+
+Check (C10_resolver_args_exact_iff :
+  forall o doc ms,
+  wf_schema o doc = true -> namespace_members o doc ResIn = Ok ms ->
+  forall ro args v, args_wf doc args = true ->
+  (In_type (res_in_env ms) (arguments_definition_to_ts ro args) v <-> args_ref o doc args v = true)
+  /\ (NotIn_type (res_in_env ms) (arguments_definition_to_ts ro args) v <-> args_ref o doc args v = false)).
+Print Assumptions C10_resolver_args_exact_iff.
+
+Check (C10_resolver_alias_exact_iff :
+  forall o ro doc ms d,
+  wf_schema o doc = true -> namespace_members o doc ResOut = Ok ms -> resolver_structure ro 0 doc = Ok d ->
+  forall td pp v, In td (typedefs doc) -> is_input_def td = false ->
+  ((exists f, mt ms (module_aliases d) f (TVar (tname td) pp) v = Some true) <-> resolver_ref o doc (tname td) v = true)
+  /\ ((exists f, mt ms (module_aliases d) f (TVar (tname td) pp) v = Some false) <-> resolver_ref o doc (tname td) v = false)).
+Print Assumptions C10_resolver_alias_exact_iff.
+
+Check (C10_resolver_result_exact_iff :
+  forall o ro doc ms d,
+  wf_schema o doc = true -> namespace_members o doc ResOut = Ok ms -> resolver_structure ro 0 doc = Ok d ->
+  forall ty v, result_wf doc ty = true ->
+  ((exists f, mt ms (module_aliases d) f (get_ts_type_of_type tvar_id ty) v = Some true)
+     <-> wrap_den (resolver_ref o doc) v (is_nonnull ty) (ty_norm ty) = true)
+  /\ ((exists f, mt ms (module_aliases d) f (get_ts_type_of_type tvar_id ty) v = Some false)
+     <-> wrap_den (resolver_ref o doc) v (is_nonnull ty) (ty_norm ty) = false)).
+Print Assumptions C10_resolver_result_exact_iff.
